@@ -100,6 +100,7 @@ type result struct {
 	serverTLS            func() *tls.Config
 	tap                  *tapState
 	unreleasable         bool
+	forgeAfterKeyUpdate  bool
 	causeDone            chan struct{} // closed when doCause has finished (edge phase: it runs in the Dial / Accept goroutine)
 	nmu                  sync.Mutex
 	finalNow             time.Duration
@@ -845,7 +846,8 @@ func runCase(c Case, res *result) {
 		if cc != nil {
 			time.Sleep(rtt + time.Duration(c.Variant)*ms)
 			res.pokeAt = w.Router.Now()
-			if err := cc.SendDatagram(make([]byte, 120)); err != nil {
+			// (if the connection has just ended - data in flight already drew a reset - the error is its cause)
+			if err := cc.SendDatagram(make([]byte, 120)); err != nil && errKind(err) == "other" {
 				res.note("poke: SendDatagram: %v", err)
 			}
 		}
